@@ -368,9 +368,20 @@ def gen_segment_refine(rng, tier, shard, nshards, boost):
             if grid and rng.random() < 0.5:
                 c.append(rng.choice(grid))         # a cut exactly on a frame time
             return c
+        rc, ec = cuts(ri, ei), cuts(ei, ri)
+        if rng.random() < 0.3:
+            # the rows of a segmentation need not be listed in time order (no validator asks for it; e.g. rows grouped
+            # by section label): the same set of labelled intervals, cut the same way
+            k = list(range(len(ri)))
+            rng.shuffle(k)
+            ri, rl = [ri[j] for j in k], [rl[j] for j in k]
+            if rng.random() < 0.5:
+                k = list(range(len(ei)))
+                rng.shuffle(k)
+                ei, el = [ei[j] for j in k], [el[j] for j in k]
         yield {"ref": [[F(s), F(e)] for s, e in ri], "ref_labels": rl,
                "est": [[F(s), F(e)] for s, e in ei], "est_labels": el, "frame_size": F(fs),
-               "ref_cuts": [F(p) for p in cuts(ri, ei)], "est_cuts": [F(p) for p in cuts(ei, ri)]}
+               "ref_cuts": [F(p) for p in rc], "est_cuts": [F(p) for p in ec]}
 
 
 def check_lmeasure_refine(inp):
